@@ -4,6 +4,7 @@
 (b) closure      Variant::{plus,minus,multiply,divide,modulo,negate,unary_not} for all tag pairs, full width
 (c) agreement    static result type (cast_binary_op_q) = dynamic result tag
 """
+import os
 from vklib import Builder
 
 T = "ILSD"
@@ -82,7 +83,7 @@ def is_int(t):
     return t in "IL"
 
 
-def closure_body(op, x, y, value=False):
+def closure_body(op, x, y, value=False, exact=True):
     big = bigger(x, y)
     sym = OPS[op]
     pre = gen("a", x) + "\n" + gen("b", y) + "\n"
@@ -102,9 +103,10 @@ def closure_body(op, x, y, value=False):
             ok.append("assert!(vk_int(&r) == exact);")
             ovf.append("assert!(exact < %s || exact > %s);" % (lo, hi))
         else:
-            pre += "let ieee = (%s as %s) %s (%s as %s);\n" % (l, fl, sym, r, fl)
             ok.append("assert!(vk_tag(&r) == %d);" % TAG[big])
-            ovf.append("assert!(!ieee.is_finite());")
+            if exact:
+                pre += "let ieee = (%s as %s) %s (%s as %s);\n" % (l, fl, sym, r, fl)
+                ovf.append("assert!(!ieee.is_finite());")      # Overflow only if the IEEE result does not fit
     elif op == "divide":
         # the dynamic result is re-tagged by value (FitToType): any numeric tag, value within 0.0001 of the quotient
         qfl = "f64" if "D" in (x, y) else "f32"
@@ -120,7 +122,7 @@ def closure_body(op, x, y, value=False):
             dz = ["assert!((b as f64).abs() < 0.00001001);"]
     else:  # modulo
         ok.append("assert!(vk_tag(&r) == 0);")
-        if is_int(x) and is_int(y):
+        if is_int(x) and is_int(y) and exact:
             ok.append("assert!(vk_int(&r) == (a as i64) % (b as i64));")
         # this implementation raises Overflow whenever a rounded operand is outside the INTEGER range
         ovf.append("assert!((a as f64) >= 32767.5 || (a as f64) <= -32768.5 || (b as f64) >= 32767.5 || (b as f64) <= -32768.5);")
@@ -212,11 +214,21 @@ def spec(tier, seed):
             for y in T:
                 ints = is_int(x) and is_int(y)
                 hard = (op in ("divide", "modulo")) and not ints
-                b.add(var, "vk_c06_%s_%s_%s" % (op, x, y), closure_body(op, x, y), unwind=2, exhaustive=True,
+                # a second multiplier / remainder circuit in the oracle makes the SAT problem an equivalence check of two
+                # circuits (float *: > 600 s with CaDiCaL, 15 s .. > 600 s with kissat; INTEGER MOD: 440-580 s): the quick
+                # instance asserts validity, tag and the error classes only, the exact variant is a thorough instance
+                second_circuit = (op == "multiply" and not ints) or (op == "modulo" and ints)
+                b.add(var, "vk_c06_%s_%s_%s" % (op, x, y), closure_body(op, x, y, exact=not second_circuit), unwind=2, exhaustive=True,
                       tier="thorough" if hard else "quick", core=not hard,
-                      cost=200 if hard else (30 if op in ("divide", "modulo") else 8),
+                      cost=200 if hard else (150 if op == "modulo" else 30 if op == "divide" else 8),
                       bounds="every valid %s x %s pair (full width)" % (NAME[x], NAME[y]),
                       functions=["rusty_variant::Variant::" + op] + (["rusty_variant::fit::FitToType"] if op in ("divide", "modulo") else []))
+                if second_circuit:
+                    b.add(var, "vk_c06_%s_exact_%s_%s" % (op, x, y), closure_body(op, x, y, exact=True), unwind=2, exhaustive=True,
+                          tier="thorough", core=False, cost=500, solver="kissat" if op == "multiply" else None,
+                          bounds="every valid %s x %s pair (full width); exact result / Overflow only if the IEEE product is not finite"
+                                 % (NAME[x], NAME[y]),
+                          functions=["rusty_variant::Variant::" + op])
     # value of the quotient (second division in the oracle: hard for the SAT solver, thorough and non-core)
     for x in T:
         for y in T:
